@@ -167,7 +167,7 @@ def judgeInput (id : String) (fs : List String) (outs : List String) : String :=
                         else (e == .missingHeader || e == .missingQuery)
             if want && code == "InvalidRequest" then agree id ("reject:" ++ kind)
             else disagree id s!"helper model error {repr e}" s!"{expect} code={code}"
-          | none => agree id ("reject:" ++ kind ++ (if !calls.isEmpty then "-other-op" else if applies then "" else "-by-router-or-other"))
+          | none => agree id ("reject:" ++ kind ++ (if !calls.isEmpty then "-other-op" else if (kind == "dup" || kind == "missing") && !applies then "-by-router" else ""))
       else
       let sent := (decodeList sent).map parseSent
       let fields := (decodeList fields).map (fun s => let (a, b) := splitFirst s '='; (normName a, b))
